@@ -39,7 +39,8 @@ CHECKS = {
         text=("Lean 4 theorems: the reference semantics `Sem` (an executable transcription of SPECIFICATION.md sections 4-8, independent of every engine) provably "
               "skips the right operand of and/or when the left decides, evaluates operands and call arguments strictly left to right with the state threaded, stops at the "
               "first fault, and keeps integers in the 64-bit range (and_short, or_short, and_right, operands_left_to_right, args_left_to_right, first_*_fault_stops, "
-              "wrap64_range); and for ALL pairs of 64-bit operands the NanoVM handlers of ADD SUB MUL DIV MOD NEG and the comparisons - the binArith/execData' that the "
+              "wrap64_range); that it assigns ONE outcome to a program - an observation other than 'not decided by this much fuel' is the observation for every larger fuel, "
+              "for every construct and either configuration (outcome_stable, outcome_unique, expr_stable, stmts_stable; Lemmas/SemCfg.lean); and for ALL pairs of 64-bit operands the NanoVM handlers of ADD SUB MUL DIV MOD NEG and the comparisons - the binArith/execData' that the "
               "lock-step runs tie to vm.c - compute exactly the reference's result: wrapping, truncating division, INT64_MIN/-1, x/0 = x%0 = 0 (vm_arith_handler, "
               "arith_agree, cmp_agree, via BitVec.toInt lemmas). Each engine is compared with the reference on whole programs: 11 operators x ordered pairs of 26 "
               "boundary values (literal and through a call), unary/abs/min/max, and/or shapes, scoping/loops/globals/recursion, int->string extremes, random typed programs."),
